@@ -15,7 +15,7 @@ def run(c):
     n = 1500 if c.tier == "quick" else 40000
     res, d = c.tool("jsoracle", ["-seed", c.seed + 100, "-tier", c.tier, "-n", n, "-cases", "print"])
     if res is not None:
-        c.corr("Js.print (parenthesis decisions of the expression printer over the regenerated precedence maps) vs the token sequence of the real js.Minify on random operator expressions", d)
+        c.corr("Js.print (parenthesis decisions of the expression printer over the regenerated precedence maps and constant guards) and Js.print_rw (the same printer with the on-the-fly rewrites optimizeUnaryExpr / optimizeBooleanExpr / optimizeCondExpr applied at every node) vs the token sequence of the real js.Minify on 6,000 + 6,000 random expressions", d)
         # a disagreement is searched for a failing input: the disagreeing expressions go to the node oracle as programs
         exs = getattr(c, "corr_examples", None) or []
         srcp = os.path.join(d, "cases.src")
